@@ -287,7 +287,7 @@ def _prec(seed, n_ch, which=0):
 
 PSCALES = (1e-10, 1e-6, 1e6)
 DTYPES = ('int64', 'int32', 'uint8', 'uint8big', 'float32', 'bool')
-TOL_F32 = 1e-4
+TOL_F32 = 1e-5
 
 
 def _typed(base, tag, poisson):
@@ -788,7 +788,7 @@ def _vs_calc_rdm(ctx, case, X, labels, folds, prec, got, kind, defined):
     tol = TOL
     if case.get('dtype') == 'float32':
         # calc_rdm averages / multiplies single-precision data in single precision (eps 6e-8): the comparison
-        # is relative to the size of the products that enter, 1e-4 of max(1, max x^2)
+        # is relative to the size of the products that enter, 1e-5 of max(1, max x^2) (largest deviation seen 7e-8)
         tol = TOL_F32
         unit = max(1.0, float(np.max(np.abs(X))) ** 2)
     floor = 0.0
